@@ -145,12 +145,12 @@ theorem fix_mdl (m dd ld : Int) : Gen.fix (mdl m dd ld) = mdl m dd ld :=
   fix_of_normalised _ (mdl_normalised m dd ld)
 
 theorem mk_yearday (y m dd : Int) (hy : y ≠ 0) (hl : ydayLookup y ydayidx 0 0 = .ok (m, dd)) :
-    mk { yearday := some y } = .ok (mdl m dd (if y > 59 then -1 else 0)) := by
+    mk { yearday := some y } = .ok (mdl m dd (if 59 < y ∧ y < 366 then -1 else 0)) := by
   unfold mk
   simp only [orInt, hy, ne_eq, not_false_eq_true, ↓reduceIte, not_true_eq_false, bind, Except.bind, pure, Except.pure,
     hl, Except.map, true_and]
   rw [← fix_mdl]
-  by_cases h : y > 59 <;> simp only [h, ↓reduceIte] <;> rfl
+  by_cases h : 59 < y ∧ y < 366 <;> simp only [h, ↓reduceIte] <;> rfl
 
 theorem mk_nlyearday (n m dd : Int) (hn : n ≠ 0) (hl : ydayLookup n ydayidx 0 0 = .ok (m, dd)) :
     mk { nlyearday := some n } = .ok (mdl m dd 0) := by
